@@ -375,9 +375,16 @@ def _step_for(cell, kind):
     return st
 
 
-def gen_trace(seed, world, cell, position, kind, R=None):
+def gen_trace(seed, world, cell, position, kind, R=None, twin=None):
     steps = []
     sv = cell.get("solver")
+    if position == "after_twin":
+        # the bad request right after (and before) an IN-DOMAIN request to the same routine: a
+        # guard that only runs on a cold path (cache miss, first call) is skipped here
+        tw = dict(_step_for(twin, "fn"), valid=True)
+        steps = [{"k": "rng", "op": "seed", "v": 5}, dict(tw), _step_for(cell, kind), dict(tw)]
+        return {"prop": PROP, "seed": seed, "world": world, "mode": kind, "cell": cell["id"],
+                "position": position, "steps": steps}
     if sv:
         cls, cfg, vmeth, vargs = SOLVERS[sv]
         valid = {"k": "call", "obj": "s0", "meth": vmeth, "args": vargs, "valid": True}
@@ -416,6 +423,22 @@ def gen_jobs(base_seed, tier, budget=None):
                     k = kind if kind == "bad" else ("call" if "solver" in cell else "fn")
                     jobs.append({"seed": seed, "trace": gen_trace(seed, w, cell, pos, k)})
                 sid += 1
+    # every out-of-domain cell of a plain function that has an in-domain cell for the same routine:
+    # once more, right after that in-domain request (prefer a twin with the same leading argument)
+    good_by_fn = {}
+    for g in GOOD:
+        if "fn" in g:
+            good_by_fn.setdefault(g["fn"], []).append(g)
+    for cell in BAD:
+        if "fn" not in cell or cell["fn"] not in good_by_fn:
+            continue
+        cands = good_by_fn[cell["fn"]]
+        same = [g for g in cands if g["args"][:1] == cell["args"][:1]]
+        for tw in (same[:1] or cands[:1]) + [g for g in cands[1:2] if not same]:
+            for w in worlds:
+                seed = base_seed * 10 ** 6 + sid
+                jobs.append({"seed": seed, "trace": gen_trace(seed, w, cell, "after_twin", "bad", twin=tw)})
+            sid += 1
     # thorough: the cells again inside longer random histories
     n_rand = 0 if tier == "quick" else (budget if budget is not None else 4000)
     for i in range(n_rand):
@@ -501,7 +524,8 @@ def nontrivial(trace, result):
 
 def evidence_extra(jobs, results):
     done = {(r["job"]["trace"]["cell"], r["job"]["trace"]["position"], r["world"]) for r in results
-            if r["job"]["trace"].get("mode") != "random"}
+            if r["job"]["trace"].get("mode") != "random" and r["job"]["trace"]["position"] != "after_twin"}
+    twins = sum(1 for r in results if r["job"]["trace"].get("position") == "after_twin")
     worlds = sorted({r["world"] for r in results})
     total = (len(BAD) + len(GOOD)) * len(POSITIONS) * len(worlds)
     classes = {}
@@ -509,7 +533,7 @@ def evidence_extra(jobs, results):
         classes[c["class"]] = classes.get(c["class"], 0) + 1
     return {"table": {"out_of_domain_cells": len(BAD), "in_domain_boundary_cells": len(GOOD),
                       "positions": list(POSITIONS), "worlds": worlds, "cells_x_positions_x_worlds": total,
-                      "executed": len(done), "argument_classes": classes},
+                      "executed": len(done), "after_in_domain_twin_runs": twins, "argument_classes": classes},
             "exhaustive": len(done) == total,
             "unguarded_not_claimed": [
                 "unknown Schur `variant` / `shift` strings", "unknown `preconditioner` string of QGMRESSolver",
